@@ -141,7 +141,7 @@ pub fn required_probes(prop: &str) -> &'static [&'static str] {
         "C07" => &["handle_drops_unresolved", "gate_pending"],
         "C08" => &["fsync_drop_before_poll", "fsync_drop_mid", "fsync_drop_waiting_slot"],
         "C09" => &["try_ok", "try_busy"],
-        "C05" => &["drops_by_caller", "drops_by_pool", "sweep_injections_fired"],
+        "C05" => &["drops_by_caller", "drops_by_pool", "sweep_injections_fired", "drops_while_panicking"],
         "C10" => &["block_on"],
         "C11" => &["stream_pending"],
         "C12" => &["out_pending", "stream_pending"],
